@@ -206,3 +206,21 @@ Proof.
   split; [reflexivity |]. split; [vm_compute; repeat split; discriminate |].
   split; [intros [E _]; vm_compute in E; discriminate |]. vm_compute. repeat split; reflexivity.
 Qed.
+
+From Texel Require Import Index.ProofsGen.
+From Texel.Gen Require Import PointIndexGen.
+
+(** ** tie G2: the leaf functions of pointindex.go REGENERATED from source on this run are the model's *)
+Theorem C02_source_tie :
+  (forall p e, gen_containsPoint p (ext_tuple e) = containsPoint p e) /\
+  (forall p c, gen_getInfiniteQuadrant p c = Z.of_nat (getInfiniteQuadrant p c)) /\
+  (forall a b parent, gen_findIntersectingQuadrants (a, b) (quad_of parent)
+      = map qtc_triple (quadrantsToCheck (getInfiniteQuadrant a (qcen parent)) (getInfiniteQuadrant b (qcen parent))
+                                         (containsPoint a (qext parent)) (containsPoint b (qext parent)))) /\
+  (forall i, lt4 i -> gen_oneIfRight (Z.of_nat i) = oneIfRight i /\ gen_oneIfTop (Z.of_nat i) = oneIfTop i).
+Proof.
+  split; [exact gen_containsPoint_spec |]. split; [exact gen_getInfiniteQuadrant_spec |].
+  split; [exact gen_findIntersectingQuadrants_spec |].
+  intros i Hi; split; [apply gen_oneIfRight_spec | apply gen_oneIfTop_spec]; exact Hi.
+Qed.
+Print Assumptions C02_source_tie.
